@@ -75,4 +75,10 @@ CLAIMS["C15"] = {"engine": "chainsim", "level": "exploration", "design_ref": "4/
 CLAIMS["C13"] = {"engine": "chainsim", "level": "exploration", "design_ref": "4/C13", "technique": "deterministic simulation with crash injection: process death at drawn file-system calls inside block commit/removal (torn write, power loss or kill, I/O error, crash during recovery) on a simulated disk; restarted node compared key for key with the before/after image of a fault-free twin",
     "text": "The chain operations a simulated network produces are replayed on a victim node whose disk dies at a drawn file-system call inside processValidated/deleteBlock; after restart the blockchain DB must equal the fault-free twin's before- or after-image, the node must start and report the matching tip, BFT heights, finalized height and application state. Sampling of crash points and histories.",
     "note": "Trusted: pebble's strict MemFS as the durability model, simfs (crash = frozen goroutines + released descriptors), the twin as image source. Background compactions are off."}
+CLAIMS["C19"] = {"engine": "chainsim", "level": "exploration", "design_ref": "4/C19", "technique": "deterministic simulation of whole nodes syncing among themselves under partitions, long outages, RPC faults, a Byzantine validator and phantom peers: handler responses checked against the responder's chain, peer choice against the selection rule on the answers received, fast-switch end states, and bounded convergence once faults stop",
+    "text": "Every sync RPC between the simulated nodes is observed: un-faulted handler responses are compared with the responder's own chain, the peer chosen by a block sync with the selection rule evaluated on the tips it was told (incl. fabricated tips of phantom peers), a fast chain switch must end on the new or the old tip and ban the peer after a roll-back; after the fault phase a fault-free phase of 4 rounds must leave all honest nodes on one chain. Sampling of histories.",
+    "note": _chain_note + " Goroutine interleavings inside the sync code are not explored (they run in place)."}
+CLAIMS["C03"] = {"engine": "chainsim", "level": "exploration", "design_ref": "4/C03", "technique": "deterministic simulation with a tampering-peer fault: single-rule, correctly re-signed mutants of valid successors offered to whole nodes in reachable states; full database dump, tip and event comparison after each rejection",
+    "text": "Nodes of a simulated network (forks, syncs, validator changes, restarts) are offered single-rule mutants of blocks that are valid successors of their current state; each mutant must be rejected leaving tip, blockchain DB, application state DB and published chain events exactly as they were. Sampling of states and mutants.",
+    "note": _chain_note + " The valid-successor premise rests on the block being signed by an honest validator and linking to the node's tip."}
 PENDING = {}
